@@ -102,6 +102,10 @@ package generic
 //@   on-store Combinations inserted-prefix: forall j :: (0 <= j && j < pos) ==> now[j] == old(m.Combinations[j])
 //@   on-store Combinations inserted-at: len(was) > 0 ==> now[pos] == combo
 //@   on-store Combinations inserted-suffix: forall j :: (pos <= j && j < len(was)) ==> now[j + 1] == old(m.Combinations[j])
+// C11: the place is decided by the precedence order of the receiving flavor: the scan over its components
+// stops at the component the method is defined on - only combinations of the flavor itself and of components
+// that come before it are skipped (whatever the order in which the methods were defined)
+//@   loop rangeindex: invariant stops-at-the-defining-component: forall j :: (0 <= j && j <= rangeindex) ==> InheritsList(class)[j] != super
 
 //@ func generic.DefClassMethod
 //@   property C11
